@@ -236,6 +236,89 @@ func c08shapeStrata(c *mon.Ctx, scriptTags, langTags []string) {
 	}
 	c.Require("rule-set:last-rule-offset>=0xFC00:round-trip")
 
+	// --- the last piece of a subtable straddles 64 KiB ------------------------------
+	// Three pieces; the first two are sized so that the subtable as a whole
+	// has 0x10000+d bytes, for every even d from just below zero to just
+	// beyond the size of the last piece: wherever the layout puts the last
+	// piece, some d puts its start at the last representable offset and its
+	// end beyond 64 KiB.  Whether the offsets did fit is decided by the
+	// independent walker (no gap, no overlap, no offset out of range).
+	type straddle struct {
+		tt, lt int
+		kind   string
+		per    int
+	}
+	var straddles []straddle
+	for _, pk := range otl.PieceKinds {
+		if pk.Type != 0 {
+			straddles = append(straddles, straddle{otl.GSUB, pk.Type, pk.Name, pk.Per})
+		}
+		if pk.GPOS != 0 {
+			straddles = append(straddles, straddle{otl.GPOS, pk.GPOS, pk.Name, pk.Per})
+		}
+	}
+	const lastPiece = 60 // payload entries of the last piece
+	steps := (2*lastPiece*2 + 64) / 2
+	c.Stratum("straddle-64k", len(straddles)*steps, func(k *mon.Case) {
+		r := k.Rng
+		st := straddles[k.Index%len(straddles)]
+		d := -16 + 2*(k.Index/len(straddles))
+		target := 0x10000 + d
+		counts := []int{7000, 7000, lastPiece}
+		if st.per == 4 {
+			counts = []int{7000, 7000, lastPiece / 2}
+		}
+		s := otl.Pieces(st.kind, counts)
+		// the encoded size, or -1 when the encoder refuses the subtable
+		sizeOf := func(s gtab.Subtable) int {
+			n := -1
+			mon.Try(func() { n = len(c08encode(s)) })
+			return n
+		}
+		for try := 0; try < 3; try++ {
+			size := sizeOf(s)
+			if size == target || (st.per == 4 && target-size == 2) {
+				break
+			}
+			delta := (target - size) / st.per
+			counts[0] += delta / 2
+			counts[1] += delta - delta/2
+			s = otl.Pieces(st.kind, counts)
+		}
+		size := sizeOf(s)
+		name := otl.Name(st.tt, st.lt, map[string]int{"5.2": 2, "6.2": 2}[st.kind]+0)
+		if name[len(name)-1] == '0' {
+			name = name[:len(name)-1] + "1"
+		}
+		info := c08wrap(r, st.tt, st.lt, s)
+		o := c08pipeline(k, st.tt, info)
+		k.Eval()
+		switch {
+		case o.panicked:
+			k.Class("straddle:refused-loudly")
+		case o.rep.OK() && len(o.rep.Unsupported) == 0:
+			// representable and written correctly: the round trip is due
+			if o.readErr != nil {
+				k.Fail("mismatch", "c08:straddle:"+name+":wellformed-output-rejected", "subtable of %d bytes (pieces %v): Encode wrote %d well-formed bytes which gtab.Read rejects: %v", size, counts, len(o.enc), o.readErr)
+			} else if o.diff != "" {
+				k.Fail("mismatch", "c08:straddle:"+name+":roundtrip", "subtable of %d bytes (pieces %v): Read(Encode(x)) != x at %s", size, counts, o.diff)
+			} else {
+				k.Class("straddle:" + name + ":round-trip")
+				if size > 0x10000 {
+					k.Class("straddle:" + name + ":round-trip-beyond-64k")
+					k.Class("straddle:round-trip-beyond-64k")
+				}
+			}
+		default:
+			k.Fail("mismatch", "c08:unrep:subtable-over-64k:"+name+":straddle:silently-corrupt", "subtable of %d bytes (pieces %v): Encode wrote %d bytes without complaint; read error: %v; difference: %s; walker: %v", size, counts, len(o.enc), o.readErr, o.diff, o.rep.Problems)
+		}
+		k.DistinctBytes(o.enc)
+		if k.Index < len(straddles) {
+			k.Sample(fmt.Sprintf("%s pieces %v -> subtable of %d bytes", name, counts, size))
+		}
+	})
+	c.Require("straddle:round-trip-beyond-64k")
+
 	// --- GDEF shapes ------------------------------------------------------------------
 	c.Stratum("gdef-shapes", c.N(90, 4500), func(k *mon.Case) {
 		r := k.Rng
